@@ -19,6 +19,16 @@ type Conn struct {
 	// EOFReads counts the Reads that found nothing left: a reader that went on to wait for bytes the
 	// wire does not hold (an effect the harness can judge on, whatever error text the reader returns)
 	EOFReads int
+	// write-failure injection: when FailNext is set, the next Write delivers only the first FailKeep
+	// bytes of its argument (FailKeep < 0: all but the last -FailKeep bytes), returns FailErr (nil: a
+	// short write without an error) and leaves the connection open, like a socket whose write deadline
+	// expires mid-frame. One shot; Failed counts the writes that were cut, FailedWrote is what the last
+	// one let through.
+	FailNext    bool
+	FailKeep    int
+	FailErr     error
+	Failed      int
+	FailedWrote []byte
 }
 
 func New() *Conn { return &Conn{} }
@@ -41,6 +51,24 @@ func (c *Conn) Write(p []byte) (int, error) {
 	c.Writes++
 	if c.Closed {
 		return 0, net.ErrClosed
+	}
+	if c.FailNext {
+		c.FailNext = false
+		c.Failed++
+		k := c.FailKeep
+		if k < 0 {
+			k = len(p) + k
+		}
+		if k < 0 {
+			k = 0
+		}
+		if k > len(p) {
+			k = len(p)
+		}
+		c.Out = append(c.Out, p[:k]...)
+		c.AllOut = append(c.AllOut, p[:k]...)
+		c.FailedWrote = append([]byte{}, p[:k]...)
+		return k, c.FailErr
 	}
 	c.Out = append(c.Out, p...)
 	c.AllOut = append(c.AllOut, p...)
